@@ -6,7 +6,7 @@ Setting of every theorem: `vs` is a non-decreasing list of `u32` values, `R ≥ 
 sample rate (`Gen.EF_SELECT_SAMPLE_RATE`, extracted from the source, is one instance), and the
 high-bits vector has at most 2^32 bit positions (`HighFits`), which is what makes the
 `global_pos as u32` cast of the select samples lossless; `highFits_of_length` derives it from
-`3·len + 64 ≤ 2^32`.  In the model `none` is a Rust panic, so `= some …` also states that the
+`3·len + 64 ≤ 2^32` (beyond that bound the code is wrong: known finding F12).  In the model `none` is a Rust panic, so `= some …` also states that the
 operation does not panic.
 -/
 import SuccinctlyVerif.Proof.EliasFanoHistory
@@ -96,16 +96,16 @@ theorem inv_init_cursor_from (R : Nat) (hR : 0 < R) (vs : List Nat) (hs : EFSpec
 
 /-- `inv_step` and `out_step` for every operation: from a state satisfying the invariant, the
 operation does not panic, re-establishes the invariant, lands on the index the plain sequence
-lands on and returns what the plain sequence returns. `OpOk` only excludes `advance_by(k)` with
-`n + k ≥ 2^64`, where `self.idx + k` wraps (see `advance_by_wraps`). -/
+lands on and returns what the plain sequence returns (every `k`, `i` included: `advance_by`
+saturates `idx + k`). -/
 theorem inv_out_step (R : Nat) (hR : 0 < R) (vs : List Nat) (hs : EFSpec.Sorted vs)
     (hu : EFSpec.AllU32 vs) (ef : EliasFano) (h : build R vs = some ef) (hf : HighFits ef)
-    (c : Cursor) (hc : CurInv vs ef c) (op : EFSpec.Op) (hop : OpOk vs.length op) :
+    (c : Cursor) (hc : CurInv vs ef c) (op : EFSpec.Op) :
     ∃ c', stepOp R ef c op = some (c', (EFSpec.step vs c.idx op).2) ∧
       c'.idx = (EFSpec.step vs c.idx op).1 ∧ CurInv vs ef c' := by
   obtain ⟨ef', h', hb⟩ := build_ok R vs hs hu
   rw [h] at h'; cases h'
-  exact stepOp_spec hb hs hu hR hf c hc op hop
+  exact stepOp_spec hb hs hu hR hf c hc op
 
 /-- The getters observed after an operation are the plain sequence's. -/
 theorem observe_eq (R : Nat) (vs : List Nat) (hs : EFSpec.Sorted vs)
@@ -123,12 +123,12 @@ the same operations produce on the plain sequence (an index into `vs`; moving pa
 `idx = n` and `None`). -/
 theorem cursor_history (R : Nat) (hR : 0 < R) (vs : List Nat) (hs : EFSpec.Sorted vs)
     (hu : EFSpec.AllU32 vs) (ef : EliasFano) (h : build R vs = some ef) (hf : HighFits ef)
-    (ops : List EFSpec.Op) (hops : ∀ op ∈ ops, OpOk vs.length op) :
+    (ops : List EFSpec.Op) :
     run R ef (cursor ef) ops = some (EFSpec.runPlain vs 0 ops) := by
   obtain ⟨ef', h', hb⟩ := build_ok R vs hs hu
   rw [h] at h'; cases h'
   obtain ⟨h1, h2⟩ := cursor_spec hb hs
-  have := run_spec hb hs hu hR hf ops (cursor ef) h2 hops
+  have := run_spec hb hs hu hR hf ops (cursor ef) h2
   rw [this, h1]
   congr 2
   unfold EFSpec.goto; split <;> omega
@@ -136,30 +136,20 @@ theorem cursor_history (R : Nat) (hR : 0 < R) (vs : List Nat) (hs : EFSpec.Sorte
 /-- The same from any state satisfying the invariant (e.g. after `cursor_from(i)`). -/
 theorem cursor_history_from (R : Nat) (hR : 0 < R) (vs : List Nat) (hs : EFSpec.Sorted vs)
     (hu : EFSpec.AllU32 vs) (ef : EliasFano) (h : build R vs = some ef) (hf : HighFits ef)
-    (c : Cursor) (hc : CurInv vs ef c)
-    (ops : List EFSpec.Op) (hops : ∀ op ∈ ops, OpOk vs.length op) :
+    (c : Cursor) (hc : CurInv vs ef c) (ops : List EFSpec.Op) :
     run R ef c ops = some (EFSpec.runPlain vs c.idx ops) := by
   obtain ⟨ef', h', hb⟩ := build_ok R vs hs hu
   rw [h] at h'; cases h'
-  exact run_spec hb hs hu hR hf ops c hc hops
+  exact run_spec hb hs hu hR hf ops c hc
 
 /-- The instance for the sample rate the source currently declares. -/
 theorem cursor_history_generated (vs : List Nat) (hs : EFSpec.Sorted vs) (hu : EFSpec.AllU32 vs)
     (hn : 3 * vs.length + 64 ≤ 2 ^ 32) (ef : EliasFano)
     (h : build Gen.EF_SELECT_SAMPLE_RATE vs = some ef)
-    (ops : List EFSpec.Op) (hops : ∀ op ∈ ops, OpOk vs.length op) :
+    (ops : List EFSpec.Op) :
     run Gen.EF_SELECT_SAMPLE_RATE ef (cursor ef) ops = some (EFSpec.runPlain vs 0 ops) :=
   cursor_history _ (by decide) vs hs hu ef h
-    (highFits_of_length _ vs hs hu ef h hn) ops hops
-
-/-- Finding: outside `OpOk` the property fails. `advance_by(usize::MAX)` from index 1 wraps
-`self.idx + k` to 0 and *seeks back* to element 0 (release build; a debug build panics), whereas
-on the plain sequence the cursor is exhausted. -/
-theorem advance_by_wraps :
-    (build Gen.EF_SELECT_SAMPLE_RATE [1, 2, 3]).bind
-        (fun ef => run Gen.EF_SELECT_SAMPLE_RATE ef (cursor ef) [.advanceOne, .advanceBy (2 ^ 64 - 1)]) ≠
-      some (EFSpec.runPlain [1, 2, 3] 0 [.advanceOne, .advanceBy (2 ^ 64 - 1)]) := by
-  decide +kernel
+    (highFits_of_length _ vs hs hu ef h hn) ops
 
 -- non-vacuity: a sequence with duplicates and a gap, queried through the generated sample rate
 example : (build Gen.EF_SELECT_SAMPLE_RATE [1, 5, 5, 900]).map (·.len) = some 4 := by decide +kernel
@@ -177,9 +167,10 @@ example : (build Gen.EF_SELECT_SAMPLE_RATE [1, 5, 5, 900]).bind
     (fun ef => run Gen.EF_SELECT_SAMPLE_RATE ef (cursor ef) [.advanceBy 2, .advanceOne, .advanceOne, .seek 1, .cursorFrom 9, .cursor]) =
     some (EFSpec.runPlain [1, 5, 5, 900] 0 [.advanceBy 2, .advanceOne, .advanceOne, .seek 1, .cursorFrom 9, .cursor]) := by
   decide +kernel
-example : ∀ op ∈ [EFSpec.Op.advanceBy 2, .advanceOne, .seek 1], OpOk 4 op := by
-  intro op hop
-  simp at hop
-  rcases hop with rfl | rfl | rfl <;> simp [OpOk]
+-- regression witness of the repaired `advance_by` overflow: an exhausted cursor stays exhausted
+example : (build Gen.EF_SELECT_SAMPLE_RATE [1]).bind
+    (fun ef => run Gen.EF_SELECT_SAMPLE_RATE ef (cursor ef) [.advanceOne, .advanceBy (2 ^ 64 - 1)]) =
+    some (EFSpec.runPlain [1] 0 [.advanceOne, .advanceBy (2 ^ 64 - 1)]) := by
+  decide +kernel
 
 end SV.Props.C03
